@@ -2506,6 +2506,60 @@ void m_observed()
       observe("monad::chain<either>", enc(r) == want && lib_log().size() == (md::ok(e) ? 1U : 0U),
               "f=" + std::to_string(t) + " e=" + std::to_string(e));
     }
+  // do_(m, l_1, ..., l_n) is the nesting of binds in which every step sees ALL values bound so far (do-notation): judged
+  // with heap-backed values (std::string beyond the small-string size) and steps that read the earlier values
+  {
+    using OS = opt<std::string>;
+    std::string const long_a(40, 'a');
+    for (int present = 0; present < 2; ++present)
+      for (int stop_at = 0; stop_at < 4; ++stop_at) // step 1..3 yields nothing; 0: none does
+      {
+        vf::add_evals(1);
+        OS const m = present ? OS{long_a} : OS{};
+        std::vector<std::string> seen;
+        OS const r = fcppt::monad::do_(
+            m,
+            [&](std::string const &x1) {
+              seen.push_back("1:" + x1);
+              return stop_at == 1 ? OS{} : OS{x1 + "|one-more-long-string-value-1"};
+            },
+            [&](std::string const &x1, std::string const &x2) {
+              seen.push_back("2:" + x1 + "," + x2);
+              return stop_at == 2 ? OS{} : OS{x2 + "|" + x1 + "|two"};
+            },
+            [&](std::string const &x1, std::string const &x2, std::string const &x3) {
+              seen.push_back("3:" + x1 + "," + x2 + "," + x3);
+              return stop_at == 3 ? OS{} : OS{x1 + "/" + x2 + "/" + x3};
+            });
+        // the nested binds, spelled out
+        std::vector<std::string> want_seen;
+        OS want{};
+        if (present)
+        {
+          std::string const x1 = long_a;
+          want_seen.push_back("1:" + x1);
+          if (stop_at != 1)
+          {
+            std::string const x2 = x1 + "|one-more-long-string-value-1";
+            want_seen.push_back("2:" + x1 + "," + x2);
+            if (stop_at != 2)
+            {
+              std::string const x3 = x2 + "|" + x1 + "|two";
+              want_seen.push_back("3:" + x1 + "," + x2 + "," + x3);
+              if (stop_at != 3)
+                want = OS{x1 + "/" + x2 + "/" + x3};
+            }
+          }
+        }
+        VF_COUNT("monad::do_/judged");
+        if (seen != want_seen)
+          vf::violation("monad::do_<optional<string>>/values-seen-by-the-steps", "mismatch",
+                        "present=" + std::to_string(present) + " stop_at=" + std::to_string(stop_at) + ": " + std::to_string(seen.size()) + " steps ran, the last saw \"" +
+                            (seen.empty() ? std::string() : seen.back().substr(0, 60)) + "\"");
+        else if (r.has_value() != want.has_value() || (r.has_value() && r.get_unsafe() != want.get_unsafe()))
+          vf::violation("monad::do_<optional<string>>/value", "mismatch", "present=" + std::to_string(present) + " stop_at=" + std::to_string(stop_at));
+      }
+  }
   // do_: lift_a2 as in the library's own test
   for (long t : {0L, 19682L, 7625L, 12345L, 4242L})
     for (int o1 = 0; o1 < 4; ++o1)
